@@ -152,6 +152,7 @@ func (fv *FuncVC) translate() (err error) {
 	// preconditions
 	if fv.C != nil {
 		env := fv.newEnv(fv.entry, fv.entry)
+		env.assuming = true
 		for _, r := range fv.C.Requires {
 			t := env.evalBool(r.E, r)
 			fv.assert(t)
@@ -779,6 +780,7 @@ func (fv *FuncVC) indexAddr(in *ssa.IndexAddr) {
 	switch xt := in.X.Type().Underlying().(type) {
 	case *types.Slice:
 		sl := fv.asTerm(x, in.X.Type())
+		fv.instantiateAt(fv.arrOf(sl), i)
 		fv.boundsCheck(i, fv.ilit(0), fv.lenOf(sl), in.Pos(), "index")
 		fv.vals[in] = Val{LV: &LValue{Kind: LElem, Slice: in.X, SliceT: sl, Idx: i, Type: xt.Elem()}}
 	case *types.Pointer:
@@ -805,6 +807,7 @@ func (fv *FuncVC) index(in *ssa.Index) {
 	i := fv.idxTerm(in.Index)
 	switch xt := in.X.Type().Underlying().(type) {
 	case *types.Basic: // string
+		fv.instantiateAt(fv.arrOf(x), i)
 		fv.boundsCheck(i, fv.ilit(0), fv.lenOf(x), in.Pos(), "index")
 		fv.vals[in] = Val{T: fv.namedElem(Term{S: fv.elemAt(x, i), Sort: SByte, Go: in.Type()})}
 	case *types.Array:
@@ -1017,8 +1020,11 @@ func (fv *FuncVC) unop(in *ssa.UnOp) {
 			}
 		}
 		t.Go = in.Type()
-		// name loaded aggregates to keep terms small and attach wf facts
-		if t.Sort.Kind != KBool {
+		// name loaded aggregates to keep terms small and attach wf facts; short terms stay as
+		// they are so that they match the same expression in contracts textually (triggers)
+		if t.Sort.Kind != KBool && len(t.S) < 90 {
+			fv.assert(fv.wf(t, in.Type()))
+		} else if t.Sort.Kind != KBool {
 			n := fv.fresh("ld", t.Sort)
 			n.Go = in.Type()
 			fv.assert(app("=", n.S, t.S))
